@@ -207,9 +207,9 @@ def withAdfs (env : Env) (adfdict : List (Str × (List Val → Option Val))) : E
       | some e => some e.2
       | none => env.funs x }
 
-/-- NOTE (zero-argument ADF sets): the code binds `pset.name` to whatever `compile` returns, which for a set
-without arguments is the VALUE of the tree, so a main tree calling `ADF0()` raises `TypeError` (candidate finding
-`compileADF-zero-arg-adf`).  The model binds the callable `fun [] => value`, i.e. gives the call its denotation.
+/-- NOTE (zero-argument ADF sets, gp.py:550-552): `compile` returns the VALUE of the tree for a set without
+arguments; `compileADF` wraps it into a callable (`lambda value=func: value`) for every set but the main one, so
+that a tree calling `ADF0()` gets the value.  The model binds the callable `fun [] => value` directly.
 
 the loop body of `compileADF` (gp.py:527-530) as a step on `(adfdict, func)`; a later
 `adfdict.update` overrides an earlier entry of the same name, so new entries go in front -/
